@@ -165,7 +165,7 @@ def run_native(run, tier):
                 elif st != "ok":
                     run.violation(f"emitted-c-msan:{st}", {"calls": nc.calls, "case": case.describe(), "stderr": errtail[-800:]})
         if vg is not None:
-            vg.finish(1500 if tier == "quick" else 6 * 3600)
+            vg.finish(3600 if tier == "quick" else 6 * 3600)
         if run.counters.get("asan_ubsan_kernel_runs", 0) < 100:
             run.inconclusive_because("the ASan+UBSan leg observed too few kernel runs")
         if plan["valgrind_cases"] and run.counters.get("valgrind_jit_kernel_runs", 0) < 30:
